@@ -168,6 +168,7 @@ func (x *Exec) invoke(st *State, fr *Frame, cc *ssa.CallCommon, recv Val, args [
 	iname := "iface:" + typeShort(cc.Value.Type()) + "." + mname
 	if con, ok := x.C.Funcs[iname]; ok {
 		all := append([]Val{recv}, args...)
+		k = x.wrapHooks(st, fr, iname, all, pos, k)
 		x.applyContract(st, fr, con, iname, cc.Signature(), all, pos, k)
 		return
 	}
